@@ -30,6 +30,12 @@ def gen_design(r, features=("cname", "attr", "param", "names", "latch", "conn", 
             m["outputs"].append(("O%d" % j, r.choice([1, 1, 2]) if "bus" in features else 1))
         if "undeclared" in features and r.random() < 0.25:
             m["declared"] = False
+        if models and r.random() < 0.25:
+            # model names are case-sensitive: buf1 and BUF1 are two models (with different ports)
+            tw = r.choice(models)["name"]
+            tw = r.choice([tw.lower(), tw.swapcase(), tw.capitalize()])
+            if all(tw != m2["name"] for m2 in models):
+                m["name"] = tw
         models.append(m)
     weird = ["$abc$%d$n", "n%d.x", "net%d", "w%d", "$auto$blif.cc:5:p$%d.A", "sig%d", "st%d[1].sum", "$0\\leds%d[15:0].q", "g[%d].u",
              "eq%d==b", "mode=%d"]        # (an '=' in a net name: a formal=actual pair is split at the FIRST one)
